@@ -35,7 +35,7 @@ def spec_trace(inv, node_path):
         ps = field(doc, 'parameters')
         if ps:
             for k, v in ps[1]:
-                if k[0] == 's' and v[0] == 's' and (k[1].startswith('sel') or k[1].startswith('rel')):
+                if k[0] == 's' and v[0] == 's' and k[1][:3] in ('sel', 'rel', 'ali'):
                     out[k[1]] = v[1]
         return out
 
@@ -56,6 +56,11 @@ def spec_trace(inv, node_path):
                 if key not in sel:
                     raise SpecError('selector not defined yet')
                 inc = sel[key]
+                hops = 0
+                while inc.startswith('${') and hops < 8:
+                    if inc[2:-1] not in sel:
+                        raise SpecError('selector not defined yet')
+                    inc, hops = sel[inc[2:-1]], hops + 1
             inc = G.py_abs_class_name(loc, inc)
             if inc in seen:
                 continue
@@ -81,7 +86,8 @@ def run(tier, rng, C):
         r = i % 6
         inv, names, incl = G.include_graph_inv(
             rng, cyclic=(r == 5), refs=0.3, missing=0.08 if r == 4 else 0.0, conflicts=False,
-            sel_override=0.5 if r in (1, 2) else 0.0, sel_relative=0.7 if r == 3 else 0.0)
+            sel_override=0.5 if r in (1, 2) else 0.0, sel_relative=0.7 if r == 3 else 0.0,
+            sel_alias=0.5 if r in (0, 2) else 0.0)
         if r == 4 and rng.random() < 0.5:
             inv.ignore = True
         for np_ in sorted(inv.nodes):
@@ -121,7 +127,7 @@ def run(tier, rng, C):
                     bad = 'merge order %s, the property gives %s' % (got, want)
             elif want is not None and k == 'err':
                 msg = unhx(o.split(' ')[1])
-                if 'Class' in msg and 'not found' in msg:
+                if ('Class' in msg and 'not found' in msg) or 'loop' in msg.lower():
                     bad = 'node fails (%s) although every include resolves; expected merge order %s' % (msg[:120], want)
             if bad:
                 key = 'include-walk-does-not-return' if k in ('abort', 'timeout') else 'merge-order'
